@@ -573,12 +573,55 @@ def c18_12(ctx):
     return [ctx.ok(spec, "last_header = H(f_n || H(f_{n-1} || ... H(f_1 || previous header))) for 0..4 filter hashes (formal hash)", fn, mod, key="header-chain")]
 
 
+def _hashed_items_cells(ctx, spec, mod, fn):
+    """hashed_items evaluated with hash_to_range as a stand-in that records its arguments, for item lists of 0..6 elements (with repeated
+    items): every item is hashed exactly once, into the range F = N * M with N the number of items, and the values come back sorted.  None
+    when the function is outside the evaluator's subset."""
+    from sa.cells import Evaluator, Raised, Undecided
+    M = 784931
+    key = bytes(range(16))
+    try:
+        for n in range(0, 7):
+            ctx.count("cells")
+            items = [bytes([7 * i % 5, i]) * 3 for i in range(n)]
+            if n >= 3:
+                items[2] = items[0]  # a repeated element still counts towards N
+            if n >= 2:
+                items[1] = b""       # ... and so does an empty one: N is the number of items handed in
+            calls = []
+
+            def opaque(name, args, kw):
+                if name == "hash_to_range":
+                    calls.append(tuple(args))
+                    return (1000 - 37 * len(calls)) % 97
+                return NotImplemented
+            try:
+                r = Evaluator(ctx.repo, opaque=opaque).call(spec, [key, list(items)])
+            except Raised as x:
+                return [ctx.bad(spec, "hashed_items of %d items raises %s" % (n, x.name), fn, mod, key="count-agrees")]
+            fs = {c[2] for c in calls if len(c) >= 3}
+            if sorted(c[1] for c in calls) != sorted(items) or any(c[0] != key for c in calls):
+                return [ctx.bad(spec, "of %d items, %d are hashed: the filter stores a different number of elements than N, so they are looked up in the wrong range" % (n, len(calls)),
+                                fn, mod, key="count-agrees")]
+            if n and fs != {n * M}:
+                return [ctx.bad(spec, "%d items are hashed into the range %s, BIP158: F = N * M = %d" % (n, sorted(fs), n * M), fn, mod, key="count-agrees")]
+            want = sorted((1000 - 37 * (i + 1)) % 97 for i in range(len(calls)))
+            if r != want:
+                return [ctx.bad(spec, "the hashed values of %d items come back as %s, not as the sorted list of all of them" % (n, r), fn, mod, key="count-agrees")]
+    except Undecided:
+        return None
+    return [ctx.ok(spec, "every item is hashed once into [0, N*M) with N = number of items, result sorted (lists of 0..6 items evaluated)", fn, mod, key="count-agrees")]
+
+
 def c18_8(ctx):
     """hashed_items: the range F = N*M is computed from the number N of items, and exactly N values are produced -- every
     iteration of the loop over the same item list appends one hashed value (an item skipped after N was taken makes the
     serialised count disagree with the range the elements were hashed into)"""
     spec = "compactfilter:hashed_items"
     mod, fn = rl.get(ctx, spec)
+    ev = _hashed_items_cells(ctx, spec, mod, fn)
+    if ev is not None:
+        return ev
     cfg = cfg_of(fn)
     counted = set()
     for n in cfg.stmts(("stmt",)):
